@@ -571,8 +571,16 @@ def run_cases(ctx, env, cases, label, follow=True):
         ccase = canon_case(case)
         kinds = sorted({s['res'] for s in trace})
         ctx.case(ccase, nontrivial=len(trace) > 2, kind=label)
+        pcs = [0] * len(case['progs'])
         for s in trace:
             ctx.count('segment:' + (s['res'] if not s['res'].startswith('crash') else 'crash'))
+            prog = case['progs'][s['t']]
+            if pcs[s['t']] < len(prog):
+                op = prog[pcs[s['t']]]
+                lab = op['k'] + ('-for-update' if op.get('fu') else '')
+                if op['k'] in ('read', 'write', 'find'): lab += ':' + ATTRS[op['a']][1]
+                ctx.count('op:%s:%s%s' % (lab, s['res'] if not s['res'].startswith('crash') else 'crash', ('=%s' % s['v']) if op['k'] == 'find' and s['res'] == 'ok' else ''))
+                if s['res'] in ('ok', 'notLoaded'): pcs[s['t']] += 1
             for e in s['events']:
                 if e['stmt'] == 'UPDATE':
                     ctx.count('update:%s:criteria=%d' % ('applied' if e['rowcount'] else 'refused', len(e['where'])))
@@ -618,7 +626,7 @@ def run(ctx, extra_cases=()):
                 if f.endswith('.json'): cs.append(load_case(json.load(open(os.path.join(corpus, f)))))
             run_cases(ctx, env, cs, 'corpus')
         run_cases(ctx, env, template_cases(ctx.rng, ctx.scale(12, 80)), 'template')
-        n = ctx.scale(500, 8000)
+        n = ctx.scale(400, 8000)
         for chunk in range(0, n, 500):
             run_cases(ctx, env, [gen_case(ctx.rng, chunk + i) for i in range(min(500, n - chunk))], 'random')
     finally:
